@@ -56,6 +56,11 @@ Lemma core_note_cancel e r : core (note_cancel e r) = core e.
 Proof. unfold note_cancel. destruct (r_name r) as [[]|]; try reflexivity; destruct (trk e); reflexivity. Qed.
 Lemma core_note_cancel_m e m r : core (note_cancel_m e m r) = core e.
 Proof. destruct m; [reflexivity|apply core_note_cancel]. Qed.
+Lemma core_cancel_unstarted e m r : core (fst (cancel_unstarted e m r)) = core e.
+Proof.
+  unfold cancel_unstarted. pose proof (core_mark_done e m r) as K. destruct (mark_done e m r) as [e1 m1]. cbn [fst] in K.
+  destruct (mark_cancelled_raises (tk e1 m1) r); cbn [fst]; [exact K|]. now rewrite core_note_cancel_m.
+Qed.
 Lemma core_set_out e i v : core (set_out e i v) = core e.
 Proof. reflexivity. Qed.
 Lemma core_schedule e r : core (schedule e r) = core e.
@@ -185,7 +190,11 @@ Proof.
            rewrite (core_sys _ _ Kn). exact Hdrop1.
         -- rewrite (core_started _ _ K). cbn. rewrite (core_started _ _ Kn). exact S1.
         -- rewrite (core_sys _ _ K). cbn. rewrite (core_sys _ _ Kn). exact N1.
-  - destruct (find_u e n) as [c|]; [|cbn; split; [split|]; auto].
+  - match goal with |- context [match ?X with None => cancel_unstarted _ _ _ | Some _ => _ end] => destruct X as [c|] end.
+    2:{ pose proof (core_cancel_unstarted e m r) as K. split; [split|].
+        - now apply (Inv_core e).
+        - rewrite (core_started _ _ K). exact S.
+        - rewrite (core_sys _ _ K). auto. }
     destruct (c_complete c).
     + pose proof (core_mark_done (fin_u e c) m r) as K.
       split; [split|].
